@@ -30,6 +30,7 @@ pub struct Observed {
     /// chunk generation of each insert (number of spills before it)
     pub generation: Vec<u32>,
     pub oversized_inserts: u64,
+    pub max_chunks_held: usize,
 }
 
 /// Runs one route and returns (entries, observations from hook H3).
@@ -76,6 +77,7 @@ pub fn run_route(scfg: &SCfg, kind: MergeKind, storage: Storage, inserts: &[Entr
                 o.oversized_inserts += 1;
             }
             o.max_capacity = o.max_capacity.max(st.0);
+            o.max_chunks_held = o.max_chunks_held.max(st.3);
             *last = st;
         });
         match r {
@@ -171,6 +173,7 @@ fn check_case(ctx: &Ctx, stream: &str, idx: u64, scfg: &SCfg, kind: MergeKind, s
         ctx.count("reallocations_observed", o.reallocations);
         ctx.count("inserts_larger_than_the_buffer", o.oversized_inserts);
         ctx.max("max_buffer_capacity", o.max_capacity as u64);
+        ctx.max("max_chunks_held_at_once", o.max_chunks_held as u64);
         if o.spills >= 1 {
             nontrivial = true;
             ctx.count("runs_with_spill", 1);
@@ -263,6 +266,30 @@ pub fn run(ctx: &Ctx, part: &str) -> i32 {
             let tokens = kind == MergeKind::Concat;
             let plan = gen_inserts_capped(rng, count, universe, max_val, tokens, big, volume + 4 * scfg.budget);
             check_case(ctx, "small", idx, &scfg, kind, storage, &plan, rng);
+        });
+    }
+    if part.is_empty() || part == "main" {
+        // more than 256 live chunks: tiny budget, no chunk merging
+        let n = ctx.n(16, 160);
+        ctx.par("many-chunks", n, true, |idx, rng| {
+            let mut scfg = gen_scfg(rng);
+            scfg.parallel = false;
+            scfg.budget = 256;
+            scfg.initial = Some(64);
+            scfg.allow_realloc = rng.chance(1, 2);
+            scfg.max_nb_chunks = *rng.pick(&[usize::MAX, 1000]);
+            scfg.codec = Some(grenad::CompressionType::None);
+            scfg.levels = Some(0);
+            scfg.block_size = None;
+            // what > 256 live chunks can break is the order of the values of a key: stable sort and an
+            // order-revealing merge function for three cases out of four
+            let kind = if idx % 4 == 3 { pick_kind(rng, scfg.stable) } else { [MergeKind::Concat, MergeKind::First, MergeKind::Last][idx as usize % 3] };
+            if idx % 4 != 3 {
+                scfg.stable = true;
+            }
+            let uni = *rng.pick(&[2usize, 9, 400]);
+            let plan = gen_inserts(rng, rng.clone().range(3000, 4500), uni, 12, kind == MergeKind::Concat, None);
+            check_case(ctx, "many-chunks", idx, &scfg, kind, Storage::CursorVec, &plan, rng);
         });
     }
     if part.is_empty() || part == "main" || part == "par" {
